@@ -118,13 +118,16 @@ let rec run_one op t : string * string =
       let b = next_z t in let e = next_z t in
       let s = if big_lt e Z0 then "na" else
           (* exact power, evaluated only while it can still be representable *)
-          let bb = big_of_z b in
-          let small = Big.leq (Big.abs bb) Big.one in
-          if (not small) && Big.gt (big_of_z e) (Big.of_int 64) then "na"
+          let bb = Big.abs (big_of_z b) in
+          let eb = big_of_z e in
+          if Big.leq bb Big.one then begin
+            (* b in {-1, 0, 1}: the power depends only on e = 0 / parity; avoids a huge exponent in Z.pow *)
+            let ee = if Big.equal eb Big.zero then Z0 else if Big.testbit eb 0 then zi 1 else zi 2 in
+            okz (ipow_spec b ee)
+          end
+          else if Big.gt eb (Big.of_int 64) || (Big.numbits bb - 1) * Big.to_int eb > 64 then "na"   (* |b|^e > 2^64 *)
           else
-            let ee = if small then z_of_big (Big.rem (big_of_z e) (Big.of_int 2)) else e in
-            let ee = if small && big_of_z e <> Big.zero && ee = Z0 then zi 2 else ee in
-            let p = ipow_spec b ee in
+            let p = ipow_spec b e in
             if inty ty p then okz p else "na" in
       (leg [ rz (ipow_m ty b e) ], s)
   | "ipow2" ->
@@ -156,7 +159,7 @@ let rec run_one op t : string * string =
   | _ -> raise Not_found
 
 let run_case op t =
-  if op <> "row" then run_one op t
+  if op <> "row" && op <> "rox" then run_one op t
   else begin
     let lo = next_int t in
     let hi = next_int t in
@@ -164,7 +167,10 @@ let run_case op t =
     let args = t.rest in
     let ms = ref [] and ss = ref [] in
     for y = lo to hi do
-      let tk = { rest = args @ [ string_of_int y ] } in
+      let tk =
+        if op = "rox" && args <> [] then
+          (let r = List.rev args in { rest = List.rev (List.hd r :: string_of_int y :: List.tl r) })
+        else { rest = args @ [ string_of_int y ] } in
       let (m, s) = run_one sub tk in
       let m = if m = "" then "void" else m in
       (* outside the documented domain (spec "na") only impl = model is compared *)
